@@ -51,9 +51,14 @@ def renaming_blocker(tid):
     return blocker(tid)
 
 
+NAME_ONLY = [False]   # older Trio (worker_fn shares nothing per-call with its to_thread.run_sync frame): the thread's name is all there is
+
+
 async def tleaf(tid):
     # several sibling tasks run this very function, so their tasks (and their worker threads) have equal names
-    if tid % 5 == 3:
+    if NAME_ONLY[0] and (tid % 5 in (3, 4) or tid % 3 == 1):
+        await trio.to_thread.run_sync(blocker, tid)
+    elif tid % 5 == 3:
         await trio.to_thread.run_sync(blocker, tid, thread_name=NameEnum("pool-worker"))
     elif tid % 5 == 4:
         await trio.to_thread.run_sync(renaming_blocker, tid)
@@ -313,6 +318,7 @@ def compare(task, stack, path, bad, info, funcs, blocklines):
 
 def run_tree(req):
     spec = req["spec"]
+    NAME_ONLY[0] = bool(req.get("name_only"))
     funcs = {}
     blocklines = {}
     funcs["tleaf"] = tleaf
